@@ -99,6 +99,7 @@ var nativeMode bool
 // found exactly once.
 var nativeRewrites = map[string][]string{
 	"formula/formula.go": {"CalculatePurchaseReturn", "CalculatePurchaseAmount", "CalculateSaleReturn", "CalculateSaleAmount"},
+	"math/pow.go":        {"Pow"},
 }
 
 func applyNativeRewrites(files map[string][]byte) error {
@@ -431,6 +432,10 @@ func cmdHarness(args []string) int {
 		}
 		if a == "-fp" {
 			opts.FloatMode = "fp"
+			continue
+		}
+		if strings.HasPrefix(a, "-real:") {
+			opts.RealBodies = append(opts.RealBodies, strings.TrimPrefix(a, "-real:"))
 			continue
 		}
 		kv := strings.SplitN(a, "=", 2)
